@@ -18,6 +18,12 @@ CLAIMS = {
  "C14": ("inter-procedural must-held lock-set analysis over package db (constructor chain tabled as pre-publication), single-critical-section path check per operation, type- and value-level escape check of shared state, who-may-write on server.Server, key/version value identity",
          "For the data part a sufficient condition, decided for every schedule: every access to kv/secret state lies inside db.DB.mu; each operation's accesses form one critical section between invocation and response; nothing aliasing shared state leaves it (values copied by conversion, no map/*secret results); the server layer is stateless after New; a value's reported version is the key its bytes were read under. Hence operations are linearizable w.r.t. the sequential code (C02). Does not search concurrent histories; the audit writer (outside DB.mu) is not part of the claim.",
          "Go memory model; one DB per kv; calls through function values do not reach db's private state", "4/C14"),
+ "C07": ("sanitizer flow (Split -> QuoteMeta on every piece of a full-range loop -> Join -> constant format) plus regexp-template analysis with regexp/syntax on the extracted constants; loop/boolean-structure recognition of Rules.Allow and Rule.Allow; panic-site enumeration over the call graph",
+         "Decided for all valid-UTF-8 patterns and names, up to regexp's conformance to regexp/syntax: the expression compiled for any pattern is ^L1(any char incl. newline)*L2...$ with every literal piece quoted, text anchors at both ends, no case folding; a star-free pattern matches only the identical name; a rule set allows iff one single rule lists the action and has a matching pattern (empty set allows nothing, monotone); evaluation has no reachable panic site. Does not decide matching on concrete strings beyond what the template proves.",
+         "regexp implements regexp/syntax semantics; QuoteMeta(x) matches exactly x; Split/Join inverse", "4/C07"),
+ "C17": ("cycle-must-contain analysis on the backup task's CFG (every cycle passes a blocking select on the task context's Done() whose branch returns), constant evaluation of the timer, edge-dominance of the upload by generation != last, phi-source analysis of the loop-carried generation, value-flow of the uploaded body, who-may-call on the task",
+         "Structural necessary conditions, decided for all timelines: the backup task blocks in every loop cycle on cancellation or a >= 1 minute timer (quiescent, cancellable, at most one upload a minute); an upload happens only when the write generation read in that iteration differs from the last successfully uploaded one, which is updated only after a successful upload; the generation is read before the file; the body is the unmodified file content and failures are reported; the task is started once under the server's context. Does not decide S3 behaviour or wall-clock timing; snapshot consistency rests on C04.",
+         "time.After(d) fires no earlier than d; os.ReadFile sees one version of a file that is only replaced by rename", "4/C17"),
  "C03": ("typestate on SSA CFG paths (mutation => save => tested error before any return), value-flow of the bytes handed to the file writer, edge-dominance on the open path, JSON wire-signature computed from go/types against the frozen v1 signature, reader/writer sibling agreement",
          "Structural necessary conditions, decided on all paths: no mutator of the persistent state can return without having called the file-writing save and tested its error; what is saved is the live map, wrapped as documented; opening writes only when the file does not exist; the v1 wire layout (keys, encodings, AEAD contexts, key template, schema constant) is unchanged and reader and writer agree. Does not decide state equality after arbitrary histories nor decoding of real old files.",
          "encoding/json encodes according to the computed shape; tink keyset reader/writer are inverse; the v1 layout is the one documented on db.kv", "4/C03"),
